@@ -102,6 +102,7 @@ type method struct {
 }
 
 type typeFacts struct {
+	returnsField map[string]string // method -> field: the method does nothing but `return recv.field` (maybe under its lock)
 	leanName string
 	si       *structInfo
 	methods  []*method
@@ -219,6 +220,12 @@ func collectType(p *pkgSrc, name string) *typeFacts {
 			tf.byName[m.name] = m
 		}
 	}
+	tf.returnsField = map[string]string{}
+	for _, m := range tf.methods {
+		if f, ok := getterOf(m, tf.si); ok {
+			tf.returnsField[m.name] = f
+		}
+	}
 	for _, m := range tf.methods {
 		w := &walker{p: p, tf: tf, m: m, recv: m.recvName, alias: map[string]string{}, atomicAlias: map[string]string{}, lockAlias: map[string]string{}}
 		w.prescan(m.decl.Body)
@@ -227,6 +234,55 @@ func collectType(p *pkgSrc, name string) *typeFacts {
 	}
 	closeAccesses(tf)
 	return tf
+}
+
+// getterOf: the body is `return recv.f`, possibly preceded by lock / deferred-unlock statements only. A local
+// assigned from such a call holds the field's value, exactly like `x := recv.f`.
+func getterOf(m *method, si *structInfo) (string, bool) {
+	body := m.decl.Body.List
+	if len(body) == 0 {
+		return "", false
+	}
+	rs, ok := body[len(body)-1].(*ast.ReturnStmt)
+	if !ok || len(rs.Results) != 1 {
+		return "", false
+	}
+	se, ok := rs.Results[0].(*ast.SelectorExpr)
+	if !ok {
+		return "", false
+	}
+	id, ok := se.X.(*ast.Ident)
+	if !ok || id.Name != m.recvName {
+		return "", false
+	}
+	if _, isField := si.fieldIdx[se.Sel.Name]; !isField {
+		return "", false
+	}
+	for _, st := range body[:len(body)-1] {
+		var call ast.Expr
+		switch x := st.(type) {
+		case *ast.ExprStmt:
+			call = x.X
+		case *ast.DeferStmt:
+			call = x.Call
+		default:
+			return "", false
+		}
+		ce, ok := call.(*ast.CallExpr)
+		if !ok {
+			return "", false
+		}
+		fs, ok := ce.Fun.(*ast.SelectorExpr)
+		if !ok {
+			return "", false
+		}
+		switch fs.Sel.Name {
+		case "Lock", "RLock", "Unlock", "RUnlock":
+		default:
+			return "", false
+		}
+	}
+	return se.Sel.Name, true
 }
 
 // ---- the walker ------------------------------------------------------------------------------------------
@@ -353,6 +409,34 @@ func (w *walker) lockPath(e ast.Expr) string {
 		// any other bare local (mu := &x.mu; mu.Lock()): never to be confused with a receiver field of the same name
 		return "local:" + id.Name
 	}
+	// rooted at a parameter: named by position, so that renaming the parameter does not change the table
+	root := e
+	for {
+		switch x := root.(type) {
+		case *ast.SelectorExpr:
+			root = x.X
+			continue
+		case *ast.ParenExpr:
+			root = x.X
+			continue
+		case *ast.StarExpr:
+			root = x.X
+			continue
+		}
+		break
+	}
+	if id, ok := root.(*ast.Ident); ok && w.m.decl.Type.Params != nil {
+		i := 0
+		for _, f := range w.m.decl.Type.Params.List {
+			for _, n := range f.Names {
+				if n.Name == id.Name {
+					t := w.p.text(e)
+					return fmt.Sprintf("arg%d", i) + strings.TrimPrefix(t, id.Name)
+				}
+				i++
+			}
+		}
+	}
 	return w.p.text(e)
 }
 
@@ -412,6 +496,15 @@ func (w *walker) prescan(body *ast.BlockStmt) {
 			if se, ok := rr.(*ast.SelectorExpr); ok {
 				if x, ok := se.X.(*ast.Ident); ok && x.Name == w.recv && w.isField(se.Sel.Name) {
 					w.alias[id.Name] = se.Sel.Name
+				}
+			}
+			if ce, ok := rr.(*ast.CallExpr); ok && len(ce.Args) == 0 { // x := recv.getter()
+				if se, ok := ce.Fun.(*ast.SelectorExpr); ok {
+					if x, ok := se.X.(*ast.Ident); ok && x.Name == w.recv {
+						if f, ok := w.tf.returnsField[se.Sel.Name]; ok {
+							w.alias[id.Name] = f
+						}
+					}
 				}
 			}
 			// address of a receiver field, possibly through a pointer conversion
@@ -646,8 +739,14 @@ func (w *walker) walkExpr(e ast.Expr, c wctx) {
 			}
 			return
 		}
+		if w.derivedUse(x.X, x) {
+			return
+		}
 		if id, ok := x.X.(*ast.Ident); ok {
-			if _, isAlias := w.alias[id.Name]; isAlias {
+			if f, isAlias := w.alias[id.Name]; isAlias {
+				if w.phase() == 2 {
+					w.add(f, "read", c, "", x) // looked into after the lock was released
+				}
 				return // a field of the object behind an aliased receiver field; the alias definition recorded the read
 			}
 		}
@@ -676,11 +775,16 @@ func (w *walker) walkExpr(e ast.Expr, c wctx) {
 		w.walkExpr(x.X, c)
 		w.walkExpr(x.Y, c)
 	case *ast.StarExpr:
+		if w.derivedUse(x.X, x) {
+			return
+		}
 		w.walkExpr(x.X, c)
 	case *ast.IndexExpr:
+		w.derivedUse(x.X, x)
 		w.walkExpr(x.X, c)
 		w.walkExpr(x.Index, c)
 	case *ast.SliceExpr:
+		w.derivedUse(x.X, x)
 		w.walkExpr(x.X, c)
 		w.walkExpr(x.Low, c)
 		w.walkExpr(x.High, c)
@@ -784,6 +888,7 @@ func (w *walker) walkCall(x *ast.CallExpr, c wctx) {
 			args(0)
 			return
 		}
+		w.derivedUse(fn.X, x) // method call on a local computed from the receiver under a lock it no longer holds
 		w.walkExpr(fn.X, argc)
 		args(0)
 		return
